@@ -16,7 +16,11 @@ def c09_constants(task):
     paper_amount = None
     for n in ast.walk(setup):
         if isinstance(n, ast.Assign) and isinstance(n.targets[0], ast.Attribute) and n.targets[0].attr == "_paper_amount":
-            paper_amount = ast.literal_eval(n.value)
+            try:
+                paper_amount = ast.literal_eval(n.value)
+            except Exception:
+                paper_amount = None
+                out["samples"].append(dict(paper_amount_expression=ast.unparse(n.value)))
     init = prog.func("bt.backtest.Backtest.__init__").node
     names = [a.arg for a in init.args.args]
     dflt = init.args.defaults[names.index("initial_capital") - (len(names) - len(init.args.defaults))]
@@ -24,11 +28,16 @@ def c09_constants(task):
     out["results"].append(_ob("C09/paper-notional-equals-default-initial-capital", ("C09",), paper_amount is not None and float(paper_amount) == float(ic), dict(paper_amount=paper_amount, initial_capital_default=ic)))
     # setup wires the paper copy: deepcopy of self, made its own root and parent, paper flag off, same data and kwargs, funded by adjust
     src = ast.unparse(setup)
-    want = ["paper = deepcopy(self)", "paper.parent = paper", "paper.root = paper", "paper._paper_trade = False", "paper.setup(self._original_data, **kwargs)", "paper.adjust(self._paper_amount)", "self._paper = paper"]
+    want = ["paper = deepcopy(self)", "paper.parent = paper", "paper._set_root(paper)", "paper._paper_trade = False", "paper.setup(self._original_data, **kwargs)", "paper.adjust(self._paper_amount)", "self._paper = paper"]
     pos = [src.find(w) for w in want]
     ok = all(p >= 0 for p in pos) and pos == sorted(pos)
     out["results"].append(_ob("C09/setup-builds-paper-copy-as-own-root-with-same-data", ("C09",), ok, dict(found_positions=pos)))
     out["samples"].append(dict(paper_amount=paper_amount, initial_capital_default=ic))
+    # settings reach the shadow copies only through the deepcopy made in setup: Backtest installs them on its own copy of the
+    # strategy in __init__ (before run calls setup); Backtest.run's verified call trace shows no later change
+    isrc = ast.unparse(init)
+    pos = [isrc.find(w) for w in ("self.strategy = deepcopy(strategy)", "self.strategy.use_integer_positions(integer_positions)", "if commissions is not None:", "self.strategy.set_commissions(commissions)")]
+    out["results"].append(_ob("C09/settings-installed-on-the-copy-before-setup", ("C09", "C19", "C07"), all(p >= 0 for p in pos) and pos == sorted(pos) and "setup(" not in isrc, dict(found_positions=pos)))
     return out
 
 
@@ -58,6 +67,26 @@ def c11_static(task):
                       ("bt.core.StrategyBase.setup", ["universe"]), ("bt.core.SecurityBase.setup", ["universe"]), ("bt.core.CouponPayingSecurity.setup", ["universe"])):
         fn = prog.func(q).node
         bad = []
+        FRESH = {"copy", "deepcopy", "concat", "DataFrame", "Series", "dict", "list", "reindex", "astype"}
+
+        def may_alias(x, al):
+            """does the value of x possibly share the object of a parameter (no fresh constructor in between)?"""
+            if isinstance(x, ast.Name):
+                return x.id in al
+            if isinstance(x, ast.Attribute):
+                return ast.unparse(x) in al
+            if isinstance(x, ast.IfExp):
+                return may_alias(x.body, al) or may_alias(x.orelse, al)
+            if isinstance(x, ast.BoolOp):
+                return any(may_alias(v, al) for v in x.values)
+            return False
+
+        aliases = set(params)
+        for n in ast.walk(fn):  # source order is enough here: aliases only ever grow
+            if isinstance(n, ast.Assign) and may_alias(n.value, aliases):
+                for t in n.targets:
+                    if isinstance(t, (ast.Name, ast.Attribute)):
+                        aliases.add(ast.unparse(t))
         for n in ast.walk(fn):
             tgts = []
             if isinstance(n, ast.Assign):
@@ -67,37 +96,50 @@ def c11_static(task):
             elif isinstance(n, ast.Delete):
                 tgts = n.targets
             for t in tgts:
-                base = t
-                while isinstance(base, (ast.Subscript, ast.Attribute)):
-                    base = base.value
-                if isinstance(t, (ast.Subscript, ast.Attribute)) and isinstance(base, ast.Name) and base.id in params:
-                    bad.append("store into %s at line %d" % (ast.unparse(t), n.lineno))
-            if isinstance(n, ast.Call) and isinstance(n.func, ast.Attribute) and isinstance(n.func.value, ast.Name) and n.func.value.id in params:
+                if isinstance(t, ast.Subscript) and may_alias(t.value, aliases):
+                    bad.append("store into %s at line %d (aliases an input)" % (ast.unparse(t), n.lineno))
+                elif isinstance(t, ast.Attribute) and may_alias(t.value, aliases) and not (isinstance(t.value, ast.Name) and t.value.id == "self"):
+                    bad.append("store into %s at line %d (aliases an input)" % (ast.unparse(t), n.lineno))
+            if isinstance(n, ast.Call) and isinstance(n.func, ast.Attribute) and may_alias(n.func.value, aliases):
                 if n.func.attr in INPLACE or any(k.arg == "inplace" for k in n.keywords):
                     bad.append("in-place call %s at line %d" % (ast.unparse(n.func), n.lineno))
         out["results"].append(_ob("C11/%s/inputs-only-read" % q.split(".", 2)[-1], P, not bad, dict(writes=bad)))
     # universe kept by a strategy is a copy, never the caller's frame
     ssrc = ast.unparse(prog.func("bt.core.StrategyBase.setup").node)
     out["results"].append(_ob("C11/StrategyBase.setup/universe-is-copied", P, "funiverse = universe.copy()" in ssrc and "self._universe = funiverse" in ssrc, {}))
-    # (c) determinism: no list()/iteration/indexing derived from a set's iteration order
-    for q in ("bt.core.StrategyBase.setup", "bt.core.Node._add_children", "bt.backtest.Backtest._process_data", "bt.backtest.Backtest.__init__", "bt.core.SecurityBase.setup"):
+    # (c) determinism: no list()/iteration/indexing derived from a set's iteration order - set expressions in place, and
+    # attributes that hold sets anywhere in bt/core.py or bt/backtest.py (assigned a set expression, or used with .add)
+    def is_setexpr(x):
+        if isinstance(x, ast.Call) and isinstance(x.func, ast.Name) and x.func.id in ("set", "frozenset"):
+            return True
+        if isinstance(x, ast.Call) and isinstance(x.func, ast.Attribute) and x.func.attr in ("intersection", "union", "difference", "symmetric_difference") and is_setexpr(x.func.value):
+            return True
+        if isinstance(x, (ast.Set, ast.SetComp)):
+            return True
+        return False
+
+    set_attrs = set()
+    for mod in ("core", "backtest"):
+        for n in ast.walk(prog.trees[mod]):
+            if isinstance(n, ast.Assign) and is_setexpr(n.value):
+                for t in n.targets:
+                    if isinstance(t, ast.Attribute):
+                        set_attrs.add(t.attr)
+            if isinstance(n, ast.Call) and isinstance(n.func, ast.Attribute) and n.func.attr in ("add", "discard") and isinstance(n.func.value, ast.Attribute):
+                set_attrs.add(n.func.value.attr)
+
+    def is_set(x):
+        return is_setexpr(x) or (isinstance(x, ast.Attribute) and x.attr in set_attrs)
+
+    for q in ("bt.core.StrategyBase.setup", "bt.core.Node._add_children", "bt.core.Node.__init__", "bt.backtest.Backtest._process_data", "bt.backtest.Backtest.__init__", "bt.core.SecurityBase.setup",
+              "bt.core.StrategyBase.setup_from_parent", "bt.core.StrategyBase.update", "bt.core.StrategyBase._create_child_if_needed"):
         fn = prog.func(q).node
         bad = []
-
-        def is_setexpr(x):
-            if isinstance(x, ast.Call) and isinstance(x.func, ast.Name) and x.func.id in ("set", "frozenset"):
-                return True
-            if isinstance(x, ast.Call) and isinstance(x.func, ast.Attribute) and x.func.attr in ("intersection", "union", "difference", "symmetric_difference") and is_setexpr(x.func.value):
-                return True
-            if isinstance(x, (ast.Set, ast.SetComp)):
-                return True
-            return False
-
         for n in ast.walk(fn):
-            if isinstance(n, ast.Call) and isinstance(n.func, ast.Name) and n.func.id in ("list", "tuple", "sorted") and n.args and is_setexpr(n.args[0]) and n.func.id != "sorted":
+            if isinstance(n, ast.Call) and isinstance(n.func, ast.Name) and n.func.id in ("list", "tuple") and n.args and is_set(n.args[0]):
                 bad.append("%s at line %d" % (ast.unparse(n)[:80], n.lineno))
-            if isinstance(n, (ast.For, ast.comprehension)) and is_setexpr(n.iter):
-                bad.append("iteration over a set at line %d" % getattr(n, "lineno", 0))
-        out["results"].append(_ob("C11/%s/no-order-taken-from-a-set" % q.split(".", 2)[-1], P, not bad, dict(order_dependent=bad, why="set iteration order of str depends on PYTHONHASHSEED: universe column order would differ between processes")))
+            if isinstance(n, (ast.For, ast.comprehension)) and is_set(n.iter):
+                bad.append("iteration over a set (%s) at line %d" % (ast.unparse(n.iter)[:40], getattr(n, "lineno", 0) or getattr(n.iter, "lineno", 0)))
+        out["results"].append(_ob("C11/%s/no-order-taken-from-a-set" % q.split(".", 2)[-1], P, not bad, dict(order_dependent=bad, set_valued_attributes=sorted(set_attrs), why="set iteration order of str depends on PYTHONHASHSEED: universe column order would differ between processes")))
     out["samples"].append(dict(static_obligations=len(out["results"])))
     return out
